@@ -1050,8 +1050,9 @@ func (r *Runtime) regexpproto_stdSplitter(call FunctionCall) Value {
 
 	for _, result := range results {
 		if result.indexes[0] == result.indexes[1] {
-			// FIXME Ugh, this is a hack
-			if result.indexes[0] == 0 || result.indexes[0] == targetLength {
+			// an empty match at the end of the previous piece (initially 0) or at the end of the
+			// subject does not split (ECMA-262 22.2.6.14 step 19.d.iii: e = p)
+			if result.indexes[0] == lastIndex || result.indexes[0] == targetLength {
 				continue
 			}
 		}
